@@ -1,7 +1,7 @@
 (* C09 -- the path-valued fields of a full dump are DERIVED here instead of being inputs:
    models.py Object.filepath / relative_filepath / relative_package_filepath (pathlib's PurePosixPath.relative_to,
    .parent), evaluated in the order Object.as_dict(full=True) evaluates them (self first, then members in order),
-   with Python exceptions as explicit Err results.
+   with Python exceptions as explicit Raised results.
    Input tree `pobj`: only modules carry a file path (Module._filepath: one file, a list of directories for a
    namespace (sub)package, None for builtin modules); every other object inherits the one of its module; the
    package is the top of the dumped tree.  `dump cwd t` = derive the three path fields of every object, then
@@ -60,11 +60,12 @@ Inductive pfp := POwn (f : mfp) | PBuiltin | PInherit.
 Inductive perr :=
 | ErrBuiltin              (* BuiltinModuleError from Module.filepath *)
 | ErrRelFilepath          (* ValueError "No directory in ... is relative to the current working directory" *)
-| ErrRelPackageFilepath.  (* ValueError from relative_package_filepath (bare `raise ValueError` or relative_to) *)
+| ErrRelPackageFilepath   (* ValueError from relative_package_filepath (bare `raise ValueError` or relative_to) *)
+| ErrNotSerializable.     (* TypeError from json.dumps: an object without encoding rule (after as_dict succeeded everywhere) *)
 
-Inductive res (A : Type) := Ok (a : A) | Err (e : perr).
-Arguments Ok {A} a.
-Arguments Err {A} e.
+Inductive res (A : Type) := Done (a : A) | Raised (e : perr).
+Arguments Done {A} a.
+Arguments Raised {A} e.
 
 Definition render_fp (f : mfp) : fpath :=
   match f with MOne p => FPOne (render_abs p) | MList l => FPList (map render_abs l) end.
@@ -73,12 +74,12 @@ Definition render_fp (f : mfp) : fpath :=
 Definition rel_filepath (cwd : path) (f : mfp) : res string :=
   match f with
   | MList l => match first_some (fun p => relative_to p cwd) l with
-               | Some r => Ok (render_rel r)
-               | None => Err ErrRelFilepath
+               | Some r => Done (render_rel r)
+               | None => Raised ErrRelFilepath
                end
   | MOne p => match relative_to p cwd with
-              | Some r => Ok (render_rel r)
-              | None => Ok (render_abs p)
+              | Some r => Done (render_rel r)
+              | None => Done (render_abs p)
               end
   end.
 
@@ -92,7 +93,7 @@ Definition rel_package_filepath_opt (pkg f : mfp) : option path :=
   end.
 
 Definition rel_package_filepath (pkg f : mfp) : res string :=
-  match rel_package_filepath_opt pkg f with Some r => Ok (render_rel r) | None => Err ErrRelPackageFilepath end.
+  match rel_package_filepath_opt pkg f with Some r => Done (render_rel r) | None => Raised ErrRelPackageFilepath end.
 
 (* ---------- the tree before path derivation ---------- *)
 
@@ -109,28 +110,28 @@ Definition effective (cur : option mfp) (fp : pfp) : option mfp :=
 (* members in order, first error wins (dict comprehension in Object.as_dict) *)
 Fixpoint derive (cwd : path) (pkg : mfp) (cur : option mfp) (t : pobj) : res obj :=
   match t with
-  | PAlias name target path lineno endlineno => Ok (OAlias name target path lineno endlineno)
+  | PAlias name target path lineno endlineno => Done (OAlias name target path lineno endlineno)
   | PObj spec name path fp lineno endlineno doc labels members =>
       match effective cur fp with
-      | None => Err ErrBuiltin
+      | None => Raised ErrBuiltin
       | Some f =>
           match rel_filepath cwd f with
-          | Err e => Err e
-          | Ok relf =>
+          | Raised e => Raised e
+          | Done relf =>
               match rel_package_filepath pkg f with
-              | Err e => Err e
-              | Ok relpf =>
+              | Raised e => Raised e
+              | Done relpf =>
                   match (fix go (l : list (string * pobj)) : res (list (string * obj)) :=
                            match l with
-                           | [] => Ok []
+                           | [] => Done []
                            | (n, m) :: r =>
                                match derive cwd pkg (Some f) m with
-                               | Err e => Err e
-                               | Ok m' => match go r with Err e => Err e | Ok r' => Ok ((n, m') :: r') end
+                               | Raised e => Raised e
+                               | Done m' => match go r with Raised e => Raised e | Done r' => Done ((n, m') :: r') end
                                end
                            end) members with
-                  | Err e => Err e
-                  | Ok ms => Ok (OObj spec name path (render_fp f) relf relpf lineno endlineno doc labels ms)
+                  | Raised e => Raised e
+                  | Done ms => Done (OObj spec name path (render_fp f) relf relpf lineno endlineno doc labels ms)
                   end
               end
           end
@@ -143,13 +144,24 @@ Definition top_fp (t : pobj) : option pfp :=
 
 Definition derive_top (cwd : path) (t : pobj) : res obj :=
   match t with
-  | PAlias name target path lineno endlineno => Ok (OAlias name target path lineno endlineno)
+  | PAlias name target path lineno endlineno => Done (OAlias name target path lineno endlineno)
   | PObj _ _ _ (POwn f) _ _ _ _ _ => derive cwd f None t
-  | PObj _ _ _ _ _ _ _ _ _ => Err ErrBuiltin
+  | PObj _ _ _ _ _ _ _ _ _ => Raised ErrBuiltin
   end.
 
+(* as_json = json.dumps(self, cls=JSONEncoder): as_dict of the whole tree first (path errors), then the encoding of the
+   leaves (TypeError for an object without rule) *)
 Definition dump (cwd : path) (t : pobj) : res json :=
-  match derive_top cwd t with Ok o => Ok (enc_full o) | Err e => Err e end.
+  match derive_top cwd t with
+  | Done o => if has_object o then Raised ErrNotSerializable else Done (enc_full o)
+  | Raised e => Raised e
+  end.
+
+Fixpoint phas_object (t : pobj) : bool :=
+  match t with
+  | PAlias _ _ _ _ _ => false
+  | PObj spec _ _ _ _ _ _ _ members => spec_has_object spec || existsb (fun nm => phas_object (snd nm)) members
+  end.
 
 (* ---------- domain predicates ---------- *)
 
@@ -263,6 +275,7 @@ Definition perr_name (e : perr) : string :=
   | ErrBuiltin => "builtin"
   | ErrRelFilepath => "relative_filepath"
   | ErrRelPackageFilepath => "relative_package_filepath"
+  | ErrNotSerializable => "not_serializable"
   end.
 
 (* ("dump" cwd tree) -> ("ok" json loadable placed f6 ) | ("err" which placed f6)
@@ -274,16 +287,16 @@ Definition run_paths (s : sexp) : option sexp :=
       | Some cwd, Some t' =>
           let flags := [of_bool (ploadable t'); of_bool (placed_top t'); of_bool (f6_gap cwd None t')] in
           Some (match dump cwd t' with
-                | Ok j => SList (SStr "ok" :: sexp_of_json j :: flags)
-                | Err e => SList (SStr "err" :: SStr (perr_name e) :: flags)
+                | Done j => SList (SStr "ok" :: sexp_of_json j :: flags)
+                | Raised e => SList (SStr "err" :: SStr (perr_name e) :: flags)
                 end)
       | _, _ => Some bad_input
       end
   | SList [SStr "relpath"; c; p; f] =>
       match path_of c, mfp_of p, mfp_of f with
       | Some cwd, Some pkg, Some f' =>
-          Some (SList [match rel_filepath cwd f' with Ok x => SList [SStr "ok"; SStr x] | Err _ => SList [SStr "err"] end;
-                       match rel_package_filepath pkg f' with Ok x => SList [SStr "ok"; SStr x] | Err _ => SList [SStr "err"] end])
+          Some (SList [match rel_filepath cwd f' with Done x => SList [SStr "ok"; SStr x] | Raised _ => SList [SStr "err"] end;
+                       match rel_package_filepath pkg f' with Done x => SList [SStr "ok"; SStr x] | Raised _ => SList [SStr "err"] end])
       | _, _, _ => Some bad_input
       end
   | _ => None
